@@ -432,9 +432,11 @@ pub fn run(ctx: Ctx) -> ! {
             }
             if out.split_char && out.n_pieces > 1 {
                 sh.sample(1, || {
-                    let e = tok.encode(s, None).unwrap();
-                    json!({"case": case_json(cfg, s), "token_ids": e.token_ids(), "token_offsets": e.token_offsets(),
-                           "tokens": tok.model().get_tokens(e.token_ids()).unwrap_or_default()})
+                    match vp_core::catch(|| tok.encode(s, None)) {
+                        Ok(Ok(e)) => json!({"case": case_json(cfg, s), "token_ids": e.token_ids(), "token_offsets": e.token_offsets(),
+                           "tokens": tok.model().get_tokens(e.token_ids()).unwrap_or_default()}),
+                        _ => json!({"case": case_json(cfg, s), "token_ids": "(encode failed or panicked)"}),
+                    }
                 });
             }
             for (sig, detail) in out.sigs {
